@@ -8,12 +8,15 @@ SPEC = {
     "needs_plz": False,
     "level": "proof",
     "level_text": (
-        "Proof on the model, PARTIAL: Model/Exec.lean is a transition system of the supervisor (running -> SIGTERM to the "
+        "Proof on the model (every execution of the model: zero supervisor latency, a Wait/deadline tie goes to Wait), "
+        "PARTIAL: Model/Exec.lean is a transition system of the supervisor (running -> SIGTERM to the "
         "group -> 30 ms -> SIGKILL to the group -> 1 s -> return; the Wait result is received at most once) composed with an "
         "arbitrary process group (members may exit, fork, close pipes, ignore SIGTERM, setsid at any moment). Proved by an "
         "inductive invariant over all reachable states: the action is reported no later than deadline + termWait + killWait "
-        "(C30_timeout_bound, = 1030 ms with the extracted durations) and after a timed-out return no group member is alive "
-        "nor can appear (C30_group_dead_after_timeout); the scripted runs the harness compares with the code are executions of that "
+        "(C30_timeout_bound, = 1030 ms with the extracted durations: the sum of the two waits, a statement about the "
+        "supervisor's structure), a command running past its deadline is reported as timed out (C30_overrun_is_timeout) and after a timed-out return no group member is alive "
+        "nor can appear (C30_group_dead_after_timeout, resting on the extracted facts secondRoundAlways and killsGroup, each "
+        "shown necessary by a negative control: C30_control_kill_round_skipped, C30_control_leader_only); the scripted runs the harness compares with the code are executions of that "
         "system (C30_script_run_is_execution), so both theorems apply to them (C30_script_timeout). The normal-exit clause is false: kernel-checked witness "
         "C30_normal_exit_witness (a child that gave up the pipes survives), partial theorem C30_normal_exit_partial. The "
         "kernel (kill(-pgid) reaches every current member, SIGKILL cannot be ignored), real time/scheduling and pipe "
@@ -23,7 +26,8 @@ SPEC = {
                  "signal/timing facts + differential runs of ExecWithTimeout on generated scripts with /proc marker survivors",
     "trusted": [
         "go/ast extractor harness/extract/c30 (signal order and waits of killProcess, unconditional second round, "
-        "kill(-pid), which select branch kills, Setpgid)",
+        "kill(-pid), which select branch kills, Setpgid; canonical skeleton digests of killProcess, sendSignal, runCommand "
+        "and ExecWithTimeout from cmd.Start() on)",
         "correspondence harness/cmd/c30 vs Driver/C30.lean (runScript): ExecWithTimeout on bash scripts whose leader and "
         "background children ignore SIGTERM / hold or give up the output pipes / exit early or never; outcome "
         "(normal|timeout) and number of marked survivors 600 ms after the return",
